@@ -21,6 +21,9 @@ struct View {
     queries: Vec<u64>,
     pending: BTreeMap<u64, bool>, // seq -> is_put
     handshake: BTreeMap<u64, (u64, u8)>, // peer -> (conn, stage 0 requested,1 received,2 sending)
+    /// connections whose handler did not acknowledge within the timeout (a tick of a second or more passed
+    /// while the wantlist was only requested): the behaviour gives them up, their handlers may still report
+    given_up: Vec<(u64, u64)>,
 }
 
 fn absorb(view: &mut View, out: &str) {
@@ -136,7 +139,7 @@ pub fn node_stream(seed: u64, histories: usize, cfg: Cfg) -> Sink {
         let mut ex = NodeExec::with_variant(sdh, variant, tables.clone());
         sink.count(match variant { b'a' => "node.builder.prefix-then-option", b'b' => "node.builder.option-then-prefix", _ => "node.builder.option-only" });
         sink.push(format!("n reset {}{}", sdh as u8, if variant == b' ' { String::new() } else { (variant as char).to_string() }), "ok".into(), "-".into());
-        let mut view = View { conns: BTreeMap::new(), next_conn: 1, queries: vec![], pending: BTreeMap::new(), handshake: BTreeMap::new() };
+        let mut view = View { conns: BTreeMap::new(), next_conn: 1, queries: vec![], pending: BTreeMap::new(), handshake: BTreeMap::new(), given_up: vec![] };
         let nops = cfg.ops / 2 + rng.below(cfg.ops);
         let mut i = 0;
         let mut want_drain = false;
@@ -233,6 +236,7 @@ pub fn node_stream(seed: u64, histories: usize, cfg: Cfg) -> Sink {
                     sink.count("node.closing");
                     Some(format!("closing {p} {c}"))
                 } else {
+                    view.given_up.retain(|x| *x != (p, c));
                     let set = view.conns.get_mut(&p).unwrap();
                     set.remove(&c);
                     let rem = set.len();
@@ -305,6 +309,16 @@ pub fn node_stream(seed: u64, histories: usize, cfg: Cfg) -> Sink {
                     b.iter().map(|(k, d)| format!("{k}:{d}")).collect::<Vec<_>>().join(","),
                     w
                 ))
+            } else if r < 92 && !view.given_up.is_empty() && rng.chance(1, 3) {
+                // the handler of a connection that was given up runs at last: its late acknowledgement and the
+                // reports that follow reach the behaviour
+                let (p, c) = *rng.pick(&view.given_up);
+                let st = rng.pick(&[format!("received:{c}"), format!("received:{c}"), format!("sending:{c}"), "ready".to_string(), format!("failed:{c}")]).clone();
+                if st == "ready" || st.starts_with("failed") {
+                    view.given_up.retain(|x| *x != (p, c));
+                }
+                sink.count("node.sending.late-from-given-up");
+                Some(format!("sending {p} {c} {st}"))
             } else if r < 92 {
                 if (view.handshake.is_empty() || rng.chance(1, 8)) && !view.conns.is_empty() {
                     // a report that belongs to no transmission the behaviour tracks: a late report of
@@ -354,6 +368,15 @@ pub fn node_stream(seed: u64, histories: usize, cfg: Cfg) -> Sink {
                 Some(format!("sending {p} {src} {st}"))
             } else if r < 97 {
                 let ms = *rng.pick(&[1u64, 10, 500, 999, 1000, 1001, 5000, 29000, 30000, 31000]);
+                if ms >= 1000 {
+                    let late: Vec<(u64, u64)> = view.handshake.iter().filter(|(_, (_, stage))| *stage == 0).map(|(p, (c, _))| (*p, *c)).collect();
+                    for (p, c) in late {
+                        if view.conns.get(&p).map_or(false, |cs| cs.len() > 1) {
+                            view.handshake.remove(&p);
+                            view.given_up.push((p, c));
+                        }
+                    }
+                }
                 sink.count("node.tick");
                 Some(format!("tick {ms}"))
             } else {
